@@ -170,7 +170,12 @@ class Session:
                     _ = self.net.where_species(st["where"])
             elif kind == "render":
                 out = os.path.join(self.dir, f"out{self.nrender}")
-                shutil.rmtree(out, ignore_errors=True)
+                key = (st["solver"], st["method"], st["device"], bool(st.get("pattern")))
+                if st.get("inplace") and getattr(self, "_last_render", None) and self._last_render[0] == key:
+                    out = self._last_render[1]  # the user re-renders into the directory of the previous render
+                else:
+                    shutil.rmtree(out, ignore_errors=True)
+                self._last_render = (key, out)
                 tl = N.templateloader.TemplateLoader(st["solver"], st["method"], st["device"])
                 from pathlib import Path
 
